@@ -265,7 +265,7 @@ where
           let cfg = Config {
             cases: per as u32,
             failure_persistence: None,
-            max_shrink_iters: 3000,
+            max_shrink_iters: std::env::var("VERIF_MAX_SHRINK").ok().and_then(|v| v.parse().ok()).unwrap_or(3000),
             rng_algorithm: RngAlgorithm::ChaCha,
             rng_seed: RngSeed::Fixed(u64::from_le_bytes(seed[0..8].try_into().unwrap())),
             max_global_rejects: u32::MAX,
